@@ -150,4 +150,22 @@ bool des_in_guard(const struct cmb_resourceguard *g, int p);
 int des_guard_count(const struct cmb_resourceguard *g);
 extern struct cmi_hashheap *cmi_verif_event_queue(void);
 
+
+/* Application-defined signals are "any 64-bit signed integer value": the driver's timers, resumes and interrupts use values
+ * whose low 32 bits are all zero, values beyond +-2^40 and values next to the ends of the type, positive and negative,
+ * so that every path a signal takes has to carry all 64 bits and may not look at its sign. */
+static inline int64_t sig_timer(int p, int a)
+{
+    const int64_t k = 1000 + p * 10 + a;
+    return (a & 1) ? (int64_t)((uint64_t)k << 32) : -((INT64_C(1) << 40) + k);
+}
+static inline int64_t sig_resume(int p)
+{
+    return INT64_MAX - 2000 - p;
+}
+static inline int64_t sig_interrupt(int p, int b)
+{
+    return (b & 1) ? INT64_MIN + 3000 + p * 10 + b : ((INT64_C(3000) + p * 10 + b) << 33) + 7;
+}
+
 #endif
